@@ -277,6 +277,14 @@ let handle_rxclasses words =
     if RegexClasses.classes_ok cls (cps pat) then "1" else "0"
   | _ -> "badcase"
 
+(* rxintervals regextype pattern(cps) -> 1/0 *)
+let handle_rxintervals words =
+  match words with
+  | [ty; pat] ->
+    let t = (match ty with "emacs" -> 0 | "grep" -> 1 | "posix-basic" | "ed" | "sed" -> 2 | "posix-extended" -> 3 | _ -> failwith "regextype") in
+    if RegexIntervals.intervals_ok (nat_of_int t) (cps pat) then "1" else "0"
+  | _ -> "badcase"
+
 (* ---- paths ---- *)
 let hexlist l = if l = [] then "~" else String.concat "," (Stdlib.List.map hex_of_bytes l)
 let bl s = Stdlib.List.map bytes_of_hex (list_of s)
@@ -490,7 +498,7 @@ let handle_args words =
   | _ -> "badcase"
 
 let handlers : (string * (string list -> string)) list ref =
-  ref [ ("xread", handle_xread); ("xargs", handle_xargs); ("xrepl", handle_xrepl); ("xnorm", handle_xnorm); ("walk", handle_walk); ("unfoldg", handle_unfoldg); ("expr", handle_expr); ("num", handle_num); ("glob", handle_glob); ("rxwrap", handle_rxwrap); ("rxrefs", handle_rxrefs); ("rxclasses", handle_rxclasses); ("paths", handle_paths); ("delete", handle_delete); ("execm", handle_execm); ("limits", handle_limits); ("entry", handle_entry); ("regex", handle_regex); ("printf", handle_printf); ("pv", handle_pv); ("args", handle_args) ]
+  ref [ ("xread", handle_xread); ("xargs", handle_xargs); ("xrepl", handle_xrepl); ("xnorm", handle_xnorm); ("walk", handle_walk); ("unfoldg", handle_unfoldg); ("expr", handle_expr); ("num", handle_num); ("glob", handle_glob); ("rxwrap", handle_rxwrap); ("rxrefs", handle_rxrefs); ("rxclasses", handle_rxclasses); ("rxintervals", handle_rxintervals); ("paths", handle_paths); ("delete", handle_delete); ("execm", handle_execm); ("limits", handle_limits); ("entry", handle_entry); ("regex", handle_regex); ("printf", handle_printf); ("pv", handle_pv); ("args", handle_args) ]
 
 let () =
   try while true do
